@@ -55,6 +55,9 @@ type Params struct {
 	SmallSegs    bool
 	MaxSegs      int
 	ReopenAfter  bool
+	BigSegs      bool // multi-page segments (2..5 pages)
+	Stall        int  // 1-in-N directions deliver their first data segment last, so everything else queues (0 = never)
+	MixSizes     bool // mix 1-page and multi-page segments in one direction
 }
 
 // History is a generated sequence of API calls plus the assembler configuration.
@@ -108,6 +111,10 @@ func genDir(r *vlib.Rand, h *History, ci, dir int, p Params, withSYN bool, close
 		switch {
 		case p.SmallSegs:
 			sz = r.Range(1, 8)
+		case p.MixSizes:
+			sz = []int{10, 100, 1000, 1900, 1901, 3800, 5701, 9000, 50, 700}[r.Intn(10)]
+		case p.BigSegs:
+			sz = []int{1901, 3800, 4000, 5701, 9000}[r.Intn(5)]
 		case style == 0:
 			sz = segSizes[r.Intn(len(segSizes))]
 		case style == 1:
@@ -172,7 +179,7 @@ func genDir(r *vlib.Rand, h *History, ci, dir int, p Params, withSYN bool, close
 }
 
 // order arranges the segments of one direction into an arrival order.
-func order(r *vlib.Rand, h *History, orig, extra []Seg) []Seg {
+func order(r *vlib.Rand, h *History, orig, extra []Seg, stall bool) []Seg {
 	segs := append([]Seg{}, orig...)
 	switch r.Intn(6) {
 	case 0: // in order
@@ -201,6 +208,16 @@ func order(r *vlib.Rand, h *History, orig, extra []Seg) []Seg {
 			s := segs[0]
 			copy(segs, segs[1:j+1])
 			segs[j] = s
+		}
+	}
+	if stall {
+		// hold back the first data segment until the end: every other segment has to be queued
+		for i, s := range segs {
+			if len(s.Data) > 0 && s.Off == 0 {
+				segs = append(append(segs[:i:i], segs[i+1:]...), s)
+				h.Features["stall"] = true
+				break
+			}
 		}
 	}
 	for _, e := range extra {
@@ -249,7 +266,7 @@ func Gen(r *vlib.Rand, p Params) *History {
 				ck = 1 + r.Intn(2)
 			}
 			o, e := genDir(r, h, ci, d, p, withSYN, ck)
-			perDir = append(perDir, order(r, h, o, e))
+			perDir = append(perDir, order(r, h, o, e, p.Stall > 0 && r.Chance(1, p.Stall)))
 		}
 	}
 	// merge the per-direction arrival orders, preserving each
